@@ -115,6 +115,10 @@ def model(p, ops, res):
     for i, ((o, v), r) in enumerate(zip(ops, res)):
         ok = r.startswith("1")
         if o == "T":
+            if ok and pdig is not None and v != ptype:
+                # another type accepted while a digest of the old type's size is pinned: what that means for the digest is
+                # the implementation's business - no claim about the rest of this history
+                break
             if ok:
                 ptype = v
         elif o == "L":
@@ -214,6 +218,18 @@ def run(ctx):
             hs.append([("T", p.htype), ("D", (nm, v)), ("R", None), ("H", None)])
             if nm.startswith(("swap", "sum-pair")):
                 hs.append([("T", p.htype), ("D", (nm + "-upper", v.upper())), ("L", p.header_len), ("V", None), ("R", None), ("H", None)])
+        # (b3) options set more than once: a pin that was accepted stays pinned unless a later call replaces it
+        good = ("ok-lower", p.hdigest.hex())
+        badd = ("nibble-off@0", ("%x" % ((int(p.hdigest.hex()[0], 16) + 1) % 16)) + p.hdigest.hex()[1:])
+        other = (p.htype + 1) % 4
+        for d1, d2 in ((good, None), (badd, None), (good, badd), (badd, good)):
+            for t2 in (p.htype, other):
+                rep = [("T", p.htype), ("D", d1), ("T", t2)] + ([("D", d2)] if d2 else [])
+                for tail in ([], [("L", p.header_len)], [("V", None)]):
+                    hs.append(rep + tail + [("R", None), ("H", None)])
+        for l1, l2 in ((p.header_len, p.header_len + 1), (p.header_len + 1, p.header_len), (p.header_len, p.header_len)):
+            hs.append([("L", l1), ("L", l2), ("R", None), ("H", None)])
+            hs.append([("T", p.htype), ("L", l1), ("D", good), ("L", l2), ("R", None), ("H", None)])
         for ch in core.chunks(hs, 600):
             hargs.append((name, b, ch))
     bmap = dict(bs)
